@@ -174,7 +174,7 @@ def _sig(cfg, obs):
         return {"comp": comp, "topo": "same", "delayed_same_ctx": True,
                 "delay_side": "both" if (cfg["tx"] and cfg["rx"]) else "tx" if cfg["tx"] else "rx", "obs": obs}
     return {"comp": comp, "topo": cfg["topo"], "style": cfg["style"], "send": cfg["send"], "tx": cfg["tx"],
-            "rx": cfg["rx"], "obs": obs, "delayed_same_ctx": False}
+            "rx": cfg["rx"], "obs": obs, "delayed_same_ctx": False, "unguarded_clear": bool(cfg.get("uclear"))}
 
 
 class _Driver:
